@@ -18,7 +18,7 @@ pub struct Which {
 
 const CAPS: [i64; 6] = [4096, 8192, 16384, 65536, 262144, 1048576];
 
-fn gen_cfg(ctx: &Ctx, rng: &mut Rng, text_entries: bool) -> (Xcfg, comm::ScriptInfo) {
+fn gen_cfg(ctx: &Ctx, rng: &mut Rng, text_entries: bool, in_pieces_ok: bool) -> (Xcfg, comm::ScriptInfo) {
     let cap = *rng.pick(&CAPS);
     let subset = rng.range(1, 7); // bit0 in, bit1 out, bit2 err
     let piped_in = subset & 1 != 0;
@@ -66,12 +66,28 @@ fn gen_cfg(ctx: &Ctx, rng: &mut Rng, text_entries: bool) -> (Xcfg, comm::ScriptI
     // one poll() call can be asked to wait)
     cfg.route.via_clone = rng.chance(250);
     cfg.route.late_stage = pipeline && rng.chance(400);
+    cfg.route.child_last = pipeline && cfg.input.is_some() && rng.chance(350);
     // ... or from a process that has closed some of its own standard descriptors: the pipes of the exchange then get
     // the numbers 0..2 on the parent's side
     cfg.route.free_std = if rng.chance(150) { rng.range(1, 7) as u8 } else { 0 };
     // a signal handler of the caller may interrupt the parent's poll/read/write: the exchange then fails with
     // Interrupted (an honest outcome) - it never returns a shortened result as if it had completed
     cfg.eintr_permille = if rng.chance(120) { 30 } else { 0 };
+    // ... or taken in pieces: reads that stop at a size limit (or time out after a few milliseconds) and are resumed,
+    // with the input still under way and the child's output piling up in between
+    if in_pieces_ok && cfg.chain.is_empty() && matches!(entry, Entry::Start | Entry::ExecCommunicate | Entry::PipelineCommunicate) && rng.chance(300) {
+        let total = si.max_total as usize + 64;
+        let piece = *rng.pick(&[1usize << 12, 1 << 14, 1 << 16, 100_000, 3000]);
+        let timed = rng.chance(400);
+        let mut chain = vec![];
+        for _ in 0..(total / piece + 8).min(4000) {
+            chain.push(comm::Limit { size: Some(piece), time: if timed { Some(std::time::Duration::from_millis(rng.range(1, 5))) } else { None } });
+        }
+        for _ in 0..64 {
+            chain.push(comm::Limit { size: Some(1 << 22), time: if timed { Some(std::time::Duration::from_secs(3600)) } else { None } });
+        }
+        cfg.chain = chain;
+    }
     if matches!(entry, Entry::Start | Entry::ExecCommunicate | Entry::PipelineCommunicate) && rng.chance(250) {
         let far = *rng.pick(&[30u64 * 86400, 365 * 86400, 50 * 365 * 86400]);
         cfg.chain = vec![comm::Limit { size: None, time: Some(std::time::Duration::from_secs(far)) }];
@@ -164,8 +180,10 @@ fn judge_c02(ctx: &mut Ctx, cfg: &Xcfg, si: &comm::ScriptInfo, x: &Xres) {
     let mut exp_out: Vec<u8> = if cfg.err_merge { vec![] } else { pat_vec(cfg.seed, 1, 0, wrote1 as usize) };
     if matches!(cfg.entry, Entry::PipelineCapture | Entry::PipelineCommunicate) {
         // the second command copies its input and appends [1:len:hash of what it saw]
-        let t = format!("[1:{}:{:016x}]", exp_out.len(), crate::common::fnv(&exp_out));
-        exp_out.extend_from_slice(t.as_bytes());
+        if !cfg.route.child_last {
+            let t = format!("[1:{}:{:016x}]", exp_out.len(), crate::common::fnv(&exp_out));
+            exp_out.extend_from_slice(t.as_bytes());
+        }
         if cfg.route.late_stage {
             let t = format!("[2:{}:{:016x}]", exp_out.len(), crate::common::fnv(&exp_out));
             exp_out.extend_from_slice(t.as_bytes());
@@ -267,7 +285,15 @@ fn judge_c02(ctx: &mut Ctx, cfg: &Xcfg, si: &comm::ScriptInfo, x: &Xres) {
         }
     }
     // ---- input: exactly once, in order, then EOF
-    if let Some(inp) = &cfg.input {
+    // (when a pass-through command sits in front of the child, the child receives the input plus that command's trailer)
+    let inp_eff: Option<Vec<u8>> = cfg.input.as_ref().map(|i| {
+        let mut v = i.clone();
+        if cfg.route.child_last {
+            v.extend_from_slice(format!("[0:{}:{:016x}]", i.len(), crate::common::fnv(i)).as_bytes());
+        }
+        v
+    });
+    if let Some(inp) = &inp_eff {
         if !x.child_done() {
             // the child was still working through its script when the harness had to end it: its report is incomplete
             ctx.count("inputs_not_judged(child did not finish its script)", 1);
@@ -393,7 +419,7 @@ fn special_inputs(rng: &mut Rng) -> Vec<u8> {
 pub fn run(ctx: &mut Ctx, which: Which) {
     let n = ctx.n(1600, 60_000);
     ctx.family("exchanges", n, |ctx, rng, i| {
-        let (cfg, si) = gen_cfg(ctx, rng, false);
+        let (cfg, si) = gen_cfg(ctx, rng, false, which.c01 && !which.c02);
         let x = comm::exchange(ctx, &cfg);
         ctx.count("exchanges", 1);
         ctx.count(&format!("family.{}", si.family), 1);
